@@ -49,6 +49,22 @@ fn main() {
     redirect_stdout();
     install_quiet_panic_hook();
     let started = Instant::now();
+    // harness watchdog: a run that exceeds its wall-clock budget is inconclusive (exit 2),
+    // never a violation
+    {
+        let limit = std::env::var("VERIF_WATCHDOG_S").ok().and_then(|s| s.parse().ok()).unwrap_or(match tier {
+            Tier::Quick => 1500u64,
+            Tier::Thorough => 4 * 3600,
+        });
+        let is_shard = shard.is_some();
+        std::thread::spawn(move || {
+            std::thread::sleep(std::time::Duration::from_secs(limit));
+            if !is_shard {
+                out(&format!("INFRA: harness watchdog: run exceeded {limit} s; inconclusive"));
+            }
+            std::process::exit(2);
+        });
+    }
     if prop == "selftest" {
         match oracle::self_test(true) {
             Ok(()) => {
